@@ -524,3 +524,237 @@ def t_deferred_branch(facts, res, tier):
                  "%s emits a branch (%s) while deferred work may be pending (%s) and then, before the branch target is defined, code that purges the deferred work (%s): "
                  "the deferred increment / Y restore is executed on the fall-through path only" % (d["function"], d["branch"], ", ".join(sorted(d["pending"])), ", ".join(sorted(d["purged_in"]))),
                  {"branch": d["branch"], "purged_in": sorted(d["purged_in"])})
+
+
+# ----------------------------------------------------------------------------- C16 (preprocessor panics)
+
+SPLIT_FAMILY = {"split", "splitn", "rsplit", "rsplitn", "split_terminator", "split_whitespace", "lines", "split_inclusive"}
+ALWAYS_ONE = {"split", "splitn", "rsplit", "rsplitn", "split_inclusive"}   # yield at least one piece for any input
+
+
+def _fn_blocks_order(fn):
+    """All nodes of fn in source order (by loc)."""
+    def lockey(n):
+        try:
+            a, b = n["loc"].split(":")
+            return (int(a), int(b))
+        except Exception:
+            return (0, 0)
+    return sorted([n for n in walk(fn["body"]) if "loc" in n], key=lockey)
+
+
+def _let_init(fn, name, before_node=None):
+    """Initialiser of the nearest `let name = ..` preceding before_node (source order)."""
+    best = None
+    bl = tuple(int(x) for x in before_node["loc"].split(":")) if before_node is not None else (10 ** 9, 0)
+    for n in walk(fn["body"]):
+        if n.get("k") == "let" and name in pat_names(n.get("pat")) and n.get("init") is not None:
+            l = tuple(int(x) for x in n["loc"].split(":"))
+            if l < bl and (best is None or l > best[0]):
+                best = (l, n["init"])
+    return best[1] if best else None
+
+
+def _strip_refs(e):
+    while e.get("k") in ("ref", "unary", "cast") or (e.get("k") == "mcall" and e["method"] in ("as_str", "clone", "to_string", "as_ref", "borrow") and not e["args"]):
+        e = e["recv"] if e.get("k") == "mcall" else e["e"]
+    return e
+
+
+def _format_parts(fn, e, at):
+    """(template, [arg nodes]) if e is (a local bound to) a format!; else None."""
+    e = _strip_refs(e)
+    if e.get("k") == "path" and len(e["segs"]) == 1:
+        init = _let_init(fn, e["segs"][0], at)
+        if init is None:
+            return None
+        return _format_parts(fn, init, at)
+    if e.get("k") == "macro" and e["name"] == "format" and e.get("args") and e["args"][0].get("k") == "lit":
+        return str(e["args"][0]["v"]), e["args"][1:]
+    return None
+
+
+def _is_escaped(fn, a, at):
+    a = _strip_refs(a)
+    if a.get("k") == "call" and a["func"].get("k") == "path" and a["func"]["segs"][-1] == "escape":
+        return True
+    if a.get("k") == "path" and len(a["segs"]) == 1:
+        init = _let_init(fn, a["segs"][0], at)
+        return init is not None and _is_escaped(fn, init, at)
+    return False
+
+
+@rule("T-CPP-UNWRAP", floor=20,
+      text="every unwrap()/expect() in the preprocessor (src/cpp.rs, the code that meets raw input text first) is on a value that cannot be None/Err "
+           "for any input: a regex compiled from a literal that parses; a regex compiled from a format! whose interpolated pieces are regex::escape'd; "
+           "a caller-supplied pattern that every in-crate caller validated; a RegexSet over patterns that were each compiled successfully; the first "
+           "piece of a split; the last element of a vector that Context::new fills and nothing ever empties; a capture group tested before. "
+           "Anything else - in particular matching input text against a regex and unwrapping the captures - can panic on some input")
+def t_cpp_unwrap(facts, res, tier):
+    fns = [f for f in facts.fns if f["file"].endswith("/cpp.rs")]
+    if not fns:
+        raise AnchorMissing("no functions found in cpp.rs")
+    # vectors filled by Context::new and never emptied
+    newfn = facts.fn("new", "Context")
+    filled = set()
+    for n in walk(newfn["body"]):
+        if n.get("k") == "mcall" and n["method"] == "push":
+            r = root_name(n["recv"])
+            m = re.match(r"^\w+\.(\w+)$", norm(n["recv"]))
+            if m:
+                filled.add(m.group(1))
+    emptied = set()
+    for f in facts.fns:
+        for n in walk(f["body"]):
+            if n.get("k") == "mcall" and n["method"] in ("pop", "clear", "truncate", "drain", "remove", "swap_remove", "retain", "take") :
+                m = re.match(r"^(?:self|context|c)\.(\w+)$", norm(n["recv"]))
+                if m:
+                    emptied.add(m.group(1))
+            if n.get("k") == "assign":
+                m = re.match(r"^(?:self|context|c)\.(\w+)$", norm(n["l"]))
+                if m and f["name"] != "new":
+                    emptied.add(m.group(1))
+    nonempty = filled - emptied
+    # validated-pattern variables per function: Regex::new(&v) whose result is not unwrapped blindly, or is unwrapped (then a bad pattern already panicked/was reported)
+    def validated_vars(fn, upto):
+        out = set()
+        ul = tuple(int(x) for x in upto["loc"].split(":"))
+        for n in walk(fn["body"]):
+            if n.get("k") == "call" and n["func"].get("k") == "path" and n["func"]["segs"][-2:] == ["Regex", "new"] and n["args"]:
+                l = tuple(int(x) for x in n["loc"].split(":"))
+                if l < ul:
+                    a = _strip_refs(n["args"][0])
+                    if a.get("k") == "path" and len(a["segs"]) == 1:
+                        out.add(a["segs"][0])
+                    elif a.get("k") == "field":
+                        out.add(norm(a))
+        return out
+
+    for fn in fns:
+        order = _fn_blocks_order(fn)
+        first_next = {}
+        for n in order:
+            if n.get("k") == "mcall" and n["method"] == "next":
+                r = n["recv"]
+                if r.get("k") == "path" and len(r["segs"]) == 1:
+                    nm = r["segs"][0]
+                    init = _let_init(fn, nm, n)
+                    key = (nm, init.get("loc") if init else None)
+                    first_next.setdefault(key, n)
+        idx = 0
+        for n in order:
+            if not (n.get("k") == "mcall" and n["method"] in ("unwrap", "expect")):
+                continue
+            idx += 1
+            R = n["recv"]
+            rt = norm(R)
+            cls = None
+            why = None
+            if R.get("k") == "call" and R["func"].get("k") == "path" and R["func"]["segs"][-1] == "new" and R["func"]["segs"][-2:-1] in (["Regex"], ["RegexSet"]):
+                kind = R["func"]["segs"][-2]
+                a = R["args"][0] if R["args"] else None
+                a0 = _strip_refs(a) if a else None
+                if kind == "Regex" and a0 is not None and a0.get("k") == "lit":
+                    pa = regex_asts([str(a0["v"])])[0]
+                    cls = "literal-regex" if "error" not in pa else None
+                    why = None if cls else "the literal pattern does not parse: %s" % pa.get("error")
+                elif kind == "Regex":
+                    fp = _format_parts(fn, a0, n)
+                    if fp is not None:
+                        tmpl, args = fp
+                        bad = [norm(x) for x in args if not _is_escaped(fn, x, n)]
+                        if not bad:
+                            cls = "escaped-interpolation"
+                        else:
+                            why = "the pattern interpolates %s without regex::escape: text with regex syntax in it (or an empty / blank-padded parameter name) makes Regex::new fail" % ", ".join(bad)
+                    elif a0.get("k") == "field" or (a0.get("k") == "path" and a0["segs"][0] in [p["name"].replace("mut ", "").strip() for p in fn["params"]]):
+                        # caller supplied pattern: all in-crate callers must have validated it
+                        callers_ok = True
+                        ncall = 0
+                        for g in facts.fns:
+                            for c in walk(g["body"]):
+                                if (c.get("k") == "mcall" and c["method"] == fn["name"]) or (c.get("k") == "call" and c["func"].get("k") == "path" and c["func"]["segs"][-1] == fn["name"]):
+                                    if g is fn:
+                                        continue
+                                    ncall += 1
+                                    vv = validated_vars(g, c)
+                                    argt = " ".join(norm(x) for x in c["args"])
+                                    if not any(re.search(r"\b%s\b" % re.escape(v), argt) for v in vv):
+                                        callers_ok = False
+                                        why = "%s passes a pattern built from input text that it never compiled itself: an invalid pattern panics here" % g["name"]
+                        if callers_ok:
+                            cls = "caller-validated-pattern(%d callers)" % ncall
+                    else:
+                        why = "pattern of unknown origin"
+                else:
+                    # RegexSet over a collection of individually compiled patterns
+                    m = re.search(r"(?:self|context)\.(\w+)", rt)
+                    coll = m.group(1) if m else None
+                    okp = coll is not None
+                    for g in facts.fns:
+                        for c in walk(g["body"]):
+                            if c.get("k") == "mcall" and c["method"] == "push" and coll and re.search(r"\.%s\b" % coll, norm(c["recv"])) and "Vec::new" not in norm(c):
+                                vv = validated_vars(g, c)
+                                argt = " ".join(norm(x) for x in c["args"])
+                                if not any(re.search(r"\b%s\b" % re.escape(v), argt) for v in vv):
+                                    okp = False
+                                    why = "%s pushes a pattern into %s that was not compiled on its own first" % (g["name"], coll)
+                    if okp:
+                        cls = "set-of-compiled-patterns"
+                    elif why is None:
+                        why = "RegexSet over patterns of unknown origin"
+            elif R.get("k") == "mcall" and R["method"] == "next":
+                rr = R["recv"]
+                if rr.get("k") == "mcall" and rr["method"] in ALWAYS_ONE:
+                    cls = "first-piece-of-split"
+                elif rr.get("k") == "path" and len(rr["segs"]) == 1:
+                    nm = rr["segs"][0]
+                    init = _let_init(fn, nm, n)
+                    i0 = _strip_refs(init) if init else None
+                    while i0 is not None and i0.get("k") == "mcall" and i0["method"] not in SPLIT_FAMILY:
+                        i0 = i0["recv"]
+                    if i0 is not None and i0.get("k") == "mcall" and i0["method"] in ALWAYS_ONE and first_next.get((nm, init.get("loc"))) is R:
+                        cls = "first-piece-of-split"
+                    else:
+                        why = "`%s.next()` is not the first piece of a split: it is None when the text has no further piece" % nm
+                else:
+                    why = "next() on an iterator of unknown length"
+            elif R.get("k") == "mcall" and R["method"] in ("last", "last_mut", "first", "first_mut"):
+                m = re.match(r"^(?:self|context)\.(\w+)$", norm(R["recv"]))
+                if m and m.group(1) in nonempty:
+                    cls = "never-empty-vector"
+                else:
+                    why = "%s may be empty" % norm(R["recv"])
+            elif R.get("k") == "mcall" and R["method"] == "get" and re.match(r"^\w+\.get\(\d+\)$", rt):
+                g = enclosing_guards(fn["body"], n) or []
+                if any(c == rt + ".is_none()" and br is False or c == rt + ".is_some()" and br is True for (_, _, c, br) in g):
+                    cls = "tested-capture-group"
+                else:
+                    why = "optional capture group unwrapped without a test"
+            elif R.get("k") == "mcall" and R["method"] == "strip_suffix" and R["args"] and R["args"][0].get("k") == "lit":
+                suf = str(R["args"][0]["v"])
+                base = root_name(R["recv"])
+                okb = False
+                for c in walk(fn["body"]):
+                    if c.get("k") == "for" and any(x.get("k") == "mcall" and x["method"] in ALWAYS_ONE for x in walk(c["iter"])):
+                        for x in walk(c["body"]):
+                            if x.get("k") == "assignop" and root_name(x["l"]) == base:
+                                fp = _format_parts(fn, x["r"], n)
+                                if fp and fp[0].replace("{{", "{").replace("}}", "}").endswith(suf):
+                                    okb = True
+                if okb:
+                    cls = "suffix-just-appended"
+                else:
+                    why = "the stripped suffix is not appended by a preceding loop that runs at least once"
+            elif R.get("k") == "mcall" and R["method"] == "captures":
+                why = "input text is matched against a regex and the captures are unwrapped: text the regex does not match panics"
+            elif rt == "String::from_utf8(output)" and fn["name"] == "process_str":
+                # tabled: process_str feeds process() a &str and collects what it writes; process() only ever writes
+                # pieces of the input lines (str) and string constants, so the collected bytes are valid UTF-8
+                cls = "utf8-of-str-output (tabled: output of process() on &str input is made of str pieces only)"
+            else:
+                why = "unclassified receiver `%s`" % rt[:60]
+            key = "T-CPP-UNWRAP:%s:%s" % (fn["name"], re.sub(r"[^A-Za-z0-9_.:(),&\\]", "", rt)[:50])
+            res.inst("%s#%d" % (key, idx), True, {"class": cls or "UNSAFE", "where": facts.where(fn, n)})
+            if cls is None:
+                res.fail(key, facts.where(fn, n), "%s: unwrap() can panic on input: %s" % (fn["name"], why), {"receiver": rt[:120]})
